@@ -21,9 +21,11 @@ def load_db(chk):
     out = os.path.join(core.CACHE, "dbx86-%s.json" % core.tree_hash()[:16])
     if not os.path.exists(out):
         os.makedirs(core.CACHE, exist_ok=True)
-        p = subprocess.run(["node", os.path.join(core.VERIF, "tools", "dbnorm", "x86.js"), core.REPO, out],
+        tmp = out + ".%d.tmp" % os.getpid()
+        p = subprocess.run(["node", os.path.join(core.VERIF, "tools", "dbnorm", "x86.js"), core.REPO, tmp],
                            stdout=subprocess.PIPE, stderr=subprocess.STDOUT, text=True, timeout=120)
-        chk.need(p.returncode == 0 and os.path.exists(out), "db normaliser failed: %s" % p.stdout[-800:])
+        chk.need(p.returncode == 0 and os.path.exists(tmp), "db normaliser failed: %s" % p.stdout[-800:])
+        os.replace(tmp, out)
     with open(out) as fh:
         return json.load(fh)
 
